@@ -6,11 +6,13 @@ package main
 
 import (
 	"encoding/json"
+	"errors"
 	"fmt"
 	"os"
 	"reflect"
 	"sort"
 	"time"
+	"unicode/utf8"
 
 	hio "github.com/hprose/hprose-golang/v3/io"
 	"verif/lib/report"
@@ -57,6 +59,22 @@ func setup(thorough bool) {
 		universe = gen.Universe(3, true)
 	}
 	alpha = gen.NewAlphabet()
+	universe = append(universe, errorType) // error values as top-level values (the message is a string item)
+}
+
+var errorType = reflect.TypeOf((*error)(nil)).Elem()
+
+// errorVals: messages that are empty, one character, ordinary, astral, and not text at all (invalid UTF-8: the
+// stream must still be well-formed, i.e. the error tag followed by a string; what the replacement text is, is
+// not prescribed, so those values are only parsed, see runType)
+func errorVals() []reflect.Value {
+	var out []reflect.Value
+	for _, m := range []string{"", "x", "boom", "你好 \"q\";{}", "😀", "bad \xff msg", "\xf0\x9f", "\xff", "ok then \xe4\xbd"} {
+		v := reflect.New(errorType).Elem()
+		v.Set(reflect.ValueOf(errors.New(m)))
+		out = append(out, v)
+	}
+	return out
 }
 
 func iface(v reflect.Value) interface{} {
@@ -76,7 +94,12 @@ func trunc(s string, n int) string {
 func runType(ti int) result {
 	t := universe[ti]
 	res := result{Type: t.String()}
-	vs := alpha.Vals(t, width)
+	var vs []reflect.Value
+	if t == errorType {
+		vs = errorVals()
+	} else {
+		vs = alpha.Vals(t, width)
+	}
 	seen := map[string]bool{}
 	add := func(kind, cfg, what string, vi int, data []byte) {
 		for _, o := range res.Viol {
@@ -105,6 +128,15 @@ func runType(ti int) result {
 			seen[string(data)] = true
 		}
 		r := refcheck.Check(data, simple, vals, ends, resets)
+		if t == errorType && r.Kind == "denotes-another-value" {
+			textual := true
+			for _, v := range vals {
+				textual = textual && utf8.ValidString(v.(error).Error())
+			}
+			if !textual {
+				r.Kind = "" // well-formed, and an error: the text of a message that is not text is not prescribed
+			}
+		}
 		switch r.Kind {
 		case "":
 			if res.Sample == "" && vi == len(vs)/2 {
